@@ -103,7 +103,9 @@ def transformed(draw, base):
                                     d2 -= 1
                                 elif ch == "," and d2 == 0:
                                     comma = True
-                            if inner.strip() and not comma and '"' not in inner:
+                            # not in a type position: `(Int) -> Int` vs `((Int)) -> Int` (a tuple type) differ
+                            in_type = l[j + 1:].lstrip().startswith("->") or re.search(r"(:|->)\s*$", l[:m.start()])
+                            if inner.strip() and not comma and '"' not in inner and not in_type:
                                 spots.append((m.start(), j))
                             break
             if not spots:
